@@ -14,6 +14,12 @@ Inductive c16case :=
 | CBloom (bpk : Z) (keys : list string) (obs : option string) (probes : list (string * bool))
 (* Contains(filter, key) = obs for arbitrary filter bytes *)
 | CHas (filter key : string) (obs : bool)
+(* filter.NewBloomFilter(bpk): the generator over nkeys keys wrote a filter of len bytes whose last byte is k
+   (filters of up to 512 MiB: only the size and k travel) *)
+| CBloomLen (bpk : Z) (nkeys len k : N)
+(* Contains(filter, key) = obs (None = it panicked) for the filter of len bytes that is zero except at the
+   listed (index, byte) pairs (filters of 2^29 bytes and more) *)
+| CHasBig (len : N) (nonzero : list (N * N)) (key : string) (obs : option bool)
 (* a table written by table.Writer with Filter = bloom bpk (wrapped in iFilter when ifl), FilterBaseLg = lg:
    ops = what the writer did to its filter writer; obs = the filter block found in the file (None = the
    writer panicked);
@@ -47,6 +53,13 @@ Definition run_case (c : c16case) : bool :=
       | Some fb => forallb (fun pr => ob_eq (bloom_contains bp fb (unhex (fst pr))) (snd pr)) probes
       end
   | CHas f k obs => ob_eq (bloom_contains bp (unhex f) (unhex k)) obs
+  | CBloomLen bpk nkeys len k => (bloom_nbytes bp bpk nkeys + 1 =? len) && (bloom_k bp bpk =? k)
+  | CHasBig len nz k obs =>
+      match bloom_contains_fn bp len (sparse_get nz) (unhex k), obs with
+      | Some a, Some b => Bool.eqb a b
+      | None, None => true
+      | _, _ => false
+      end
   | CFB ifl bpk lg ops obs queries =>
       let P := the_policy ifl bpk in
       match fw_build P lg (map op_of ops), obs with
